@@ -144,7 +144,9 @@ def _reference_main(argv):
 # histories
 
 SIDE = ["T1N-R1E Sec 1: Lots 1 - 3", "154-97 Sec 14: NE/4", "T154-R97 Sec 14: SW/4", "garbage text", "T154N-R97W Sec 14: NE/4",
-        "Sec 14: NE, T154-R97", "T2S-R3E Sec 100: X", "Township 154, Range 97 Sec 14: ALL"]
+        "Sec 14: NE, T154-R97", "T2S-R3E Sec 100: X", "Township 154, Range 97 Sec 14: ALL",
+        "Stray words before T154N-R97W Sec 14: NE/4 and some after\nT1N-R1E", "NE/4 of Sec 1, T1N-R1E, trailing words here",
+        "TIS4N-R97W Sec 1: ALL"]
 NEAR = ["154n97w1", "154n97w144", "54n97w14", "154n97w14 ", "154N97W14", "154n97e14", "154s97w14", "154n97w", "154n97", "x154n97w14", "154n097w14"]
 
 OP = st.one_of(
